@@ -6,7 +6,7 @@
 Steps (all confirmed here, not taken from the agent's word):
   1. the worktree's uncommitted diff of goodwe/ equals patch.diff and applies to /repo's HEAD
   2. the repository's tests pass with the change
-  3. demo_break.py exits non-zero with the change and 0 without it (git stash / stash pop in the worktree)
+  3. demo_break.py exits non-zero with the change and 0 without it (git apply -R / git apply in the worktree)
   4. the registered quick checks named (default: the property's own) are run against a scratch copy with the patch
 Results go to seeded/<id>/meta.json (agent's meta + what was run here + which checks caught it).
 """
@@ -51,11 +51,19 @@ def main():
     out["ran"].append("cd %s && /venv/bin/python -m pytest -q -p no:cacheprovider -> %s" % (wt, t.strip()))
     rc1, o1 = sh("/venv/bin/python demo_break.py", cwd=wt)
     out["demo_with_change_rc"] = rc1
-    sh("git -C %s stash -- goodwe" % wt)
+    # NOT git stash: the stash is shared by all worktrees of one repository, concurrent agents would pop each other's changes
+    tmp_own = "/var/tmp/seeded_own_%s.diff" % pid
+    with open(tmp_own, "w") as f:
+        f.write(diff)
+    r_rc, r_out = sh("git -C %s apply -R %s" % (wt, tmp_own))
+    if r_rc != 0:
+        print("cannot revert the change in", wt, r_out)
+        return 2
     try:
         rc0, o0 = sh("/venv/bin/python demo_break.py", cwd=wt)
     finally:
-        sh("git -C %s stash pop" % wt)
+        sh("git -C %s apply %s" % (wt, tmp_own))
+        os.remove(tmp_own)
     out["demo_without_change_rc"] = rc0
     out["ran"].append("demo_break.py with change -> exit %d (%s); without -> exit %d" % (rc1, o1.strip().splitlines()[-1][:160] if o1.strip() else "", rc0))
     tmp_patch = "/var/tmp/seeded_%s.diff" % pid
